@@ -1859,6 +1859,7 @@ Proof.
   pose proof (wfw_range _ _ Hs) as [Hw Rs]. pose proof (wfw_range _ _ He) as [_ Re].
   unfold wi_trunc, is_bottom. rewrite B, T. cbn [orb].
   assert (get_bitwidth (wstart i) = w) as -> by apply Hs.
+  destruct (Z.leb_spec w k) as [KW|_]; [lia|].
   assert (0 < 2 ^ k) as HL by (apply pow2_pos; lia).
   assert (2 ^ k < 2 ^ w) as LM by (apply Z.pow_lt_mono_r; lia).
   destruct (wmk_val_small k w Hw) as [Hkk Vkk].
